@@ -84,7 +84,7 @@ func (f c22Filter) accepts(o c22Op) (verdict, ok bool) {
 }
 
 type c22World struct {
-	t     *rapid.T
+	t     ev.TB // *rapid.T, or *testing.T in the regression table
 	r     *ev.Rec
 	st    *leveldbstorage.Storage
 	pool  *isaacdatabase.TempPool
@@ -597,8 +597,7 @@ func (w *c22World) descr(out []int) string {
 	return "[" + strings.Join(s, " ") + "]"
 }
 
-func (w *c22World) drawFilter() c22Filter {
-	t := w.t
+func (w *c22World) drawFilter(t *rapid.T) c22Filter {
 
 	switch kind := rapid.SampledFrom([]string{"all", "all", "all", "nil", "none", "fact", "signer", "ops", "ops", "alternate"}).Draw(t, "filter"); kind {
 	case "fact":
@@ -646,23 +645,81 @@ func TestC22(t *testing.T) {
 		facts = append(facts, isaac.NewDummyOperationFact([]byte(fmt.Sprintf("verif-c22-fact-%d", i)), valuehash.NewSHA256([]byte(fmt.Sprintf("value-%d", i)))))
 	}
 
+	newWorld := func(tb ev.TB, cache int, height base.Height) (*c22World, func()) {
+		st := leveldbstorage.NewMemStorage()
+		w := &c22World{
+			t: tb, r: r, st: st, facts: facts, keys: keys[:c22Keys],
+			byHash: map[string]int{}, rejected: map[int]bool{}, handed: map[int]bool{}, classes: map[string]bool{},
+			cache: cache, height: height,
+		}
+		w.pool = newTempPool(tb, st, encs, enc, cache)
+
+		return w, func() {
+			_ = w.pool.Close()
+			_ = st.Close()
+		}
+	}
+
+	// ---- regression table: the shrunk histories of the defects this check found (plain code, no library)
+	t.Run("regress", func(t *testing.T) {
+		all, none := c22Filter{kind: "all"}, c22Filter{kind: "none"}
+
+		table := []struct {
+			name string
+			run  func(w *c22World)
+		}{
+			{"two rejected operations, limit 1", func(w *c22World) {
+				w.add(0, 0)
+				w.add(0, 0)
+				w.hashes(1, none, false)
+			}},
+			{"facts a b a b in one scan", func(w *c22World) {
+				w.add(0, 0)
+				w.add(1, 0)
+				w.add(0, 1)
+				w.add(1, 1)
+				w.hashes(10, all, false)
+			}},
+			{"facts a b a b a in one scan", func(w *c22World) {
+				w.add(0, 0)
+				w.add(1, 0)
+				w.add(0, 0)
+				w.add(1, 0)
+				w.add(0, 0)
+				w.hashes(64, all, true)
+			}},
+			{"duplicate fact, two scans", func(w *c22World) {
+				w.add(0, 0)
+				w.add(0, 0)
+				w.hashes(3, all, false)
+				w.hashes(64, all, true)
+			}},
+		}
+
+		for i, c := range table {
+			if !r.Mine(i) {
+				continue
+			}
+
+			w, closef := newWorld(t, 0, 0)
+			c.run(w)
+			closef()
+
+			r.Case("regress:"+c.name, true, "regression-table")
+		}
+	})
+
+	if t.Failed() {
+		return
+	}
+
 	steps := r.N(12, 20)
 	r.Checks(400, 20000)
 	r.ShrinkTime(12 * time.Second)
 
 	rapid.Check(t, func(rt *rapid.T) {
-		st := leveldbstorage.NewMemStorage()
-		defer st.Close()
-
-		w := &c22World{
-			t: rt, r: r, st: st, facts: facts, keys: keys[:c22Keys],
-			byHash: map[string]int{}, rejected: map[int]bool{}, handed: map[int]bool{}, classes: map[string]bool{},
-			cache:  rapid.SampledFrom([]int{0, 3}).Draw(rt, "opcache"),
-			height: base.Height(rapid.IntRange(0, 4).Draw(rt, "startHeight")),
-		}
-		w.pool = newTempPool(rt, st, encs, enc, w.cache)
-
-		defer func() { _ = w.pool.Close() }()
+		w, closef := newWorld(rt, rapid.SampledFrom([]int{0, 3}).Draw(rt, "opcache"), base.Height(rapid.IntRange(0, 4).Draw(rt, "startHeight")))
+		defer closef()
 
 		// a burst of adds first (so scans have something to de-duplicate), then drawn steps
 		for i := rapid.IntRange(0, 8).Draw(rt, "burst"); i > 0 && !w.stop; i-- {
@@ -686,7 +743,7 @@ func TestC22(t *testing.T) {
 				w.add(rapid.IntRange(0, c22Facts-1).Draw(rt, "fact"), rapid.IntRange(0, c22Keys-1).Draw(rt, "key"))
 			case "hashes":
 				limit := rapid.IntRange(1, 12).Draw(rt, "limit")
-				f := w.drawFilter()
+				f := w.drawFilter(rt)
 				w.classes["filter:"+f.kind] = true
 				w.hashes(limit, f, rapid.Bool().Draw(rt, "nextHeight"))
 			case "readd":
@@ -696,7 +753,7 @@ func TestC22(t *testing.T) {
 					rt.Fatalf("close: %v", err)
 				}
 
-				w.pool = newTempPool(rt, st, encs, enc, w.cache)
+				w.pool = newTempPool(rt, w.st, encs, enc, w.cache)
 				w.log = append(w.log, "reopen")
 			case "clean":
 				w.height += base.Height(rapid.IntRange(0, 4).Draw(rt, "heightJump"))
